@@ -125,3 +125,18 @@ prop("C04", "An incomplete snapshot replay is never recorded as a completed full
        "quick": {"checks": 64, "shards": 8, "timeout": 900},
        "thorough": {"checks": 3200, "shards": 16, "timeout": 5400}}],
      RDB_ASSUME + ["child processes run under `ulimit -v 40 GiB`"])
+
+prop("C10", "Filters pass exactly the configured set of commands, keys, slots and databases", "exploration",
+     "filter configuration = 0-6 slot ranges in white and/or black list in any order (single slots, wide ranges that contain others, overlapping, adjacent, reversed l>r ranges that must be ignored), prefix white/black lists (ASCII and multi-byte UTF-8 prefixes, prefixes of the reserved names), db blacklist, command blacklist in any letter case. "
+     "Pure layer: one case = configuration x one command drawn from the reference key-position table (~95 commands: single-key, first/last/step, numkeys with and without destination) with 1-4 binary / brace-heavy / reserved-looking keys x db; compared: FilterCmd, FilterDb, FilterKey, FilterSlot, FilterCmdKey (decision and projected arguments). "
+     "End-to-end layer: one case = configuration x stream of 1-12 such commands over several dbs through the real RedisOutput (incremental path) x snapshot of 1-10 string keys (snapshot path, RESTORE and expansion). "
+     "non-trivial = distinct case with a multi-key command of mixed acceptance, or any key decision under overlapping/nested ranges (pure); every end-to-end case. "
+     "Oracle: ref/filtermodel (union of ranges over ref/hashslot, byte-prefix rules, reserved namespaces redis-gunyu-checkpoint*, /redis-gunyu*, redis-gunyu-bisync*, DEL/UNLINK/MSET projection keeping order and values, any other command with a rejected key withheld).",
+     [{"pkg": "c10", "test": "TestC10Pure",
+       "quick": {"checks": 60000, "shards": 4, "timeout": 600},
+       "thorough": {"checks": 4000000, "shards": 16, "timeout": 3600},
+       "fuzz": [{"target": "FuzzC10", "time": "90s", "timeout": 400}]},
+      {"pkg": "c10", "test": "TestC10E2E",
+       "quick": {"checks": 480, "shards": 8, "timeout": 600},
+       "thorough": {"checks": 16000, "shards": 16, "timeout": 3600}}],
+     STREAM_ASSUME + ["ref/keyspec (key positions transcribed from the Redis command reference)", "ref/filtermodel", "ref/hashslot", "ref/rdbgen for the snapshot layer"])
